@@ -87,9 +87,16 @@ one(const struct codec *c, uint64_t bits, unsigned align)
     const int n = c->width / 8;
     bits &= wmask(c->width);
     uint64_t v = api_value(c, bits);
+    static unsigned char tmpl[24];
+    static int have_tmpl;
     unsigned char buf[24], exp[24];
-    for (int i = 0; i < 24; i++)
-        buf[i] = exp[i] = (unsigned char)(0xC3u ^ (unsigned)(i * 29));
+    if (!have_tmpl) {
+        for (int i = 0; i < 24; i++)
+            tmpl[i] = (unsigned char)(0xC3u ^ (unsigned)(i * 29));
+        have_tmpl = 1;
+    }
+    memcpy(buf, tmpl, 24);
+    memcpy(exp, tmpl, 24);
     for (int i = 0; i < n; i++) {
         int shift = (c->order == 'b') ? 8 * (n - 1 - i) : 8 * i;
         exp[align + (unsigned)i] = (unsigned char)(bits >> shift);
@@ -156,7 +163,9 @@ u_codec(uint64_t idx, void *arg)
         uint64_t total = 1ull << w;
         uint64_t nchunks = w == 16 ? 1 : (w == 24 ? 16 : 4096);
         uint64_t lo = total / nchunks * idx, hi = lo + total / nchunks;
-        for (uint64_t b = lo; b < hi; b++) {
+        /* the secondary build configurations of the thorough tier stride through the 32-bit values */
+        uint64_t step = (w == 32 && vh_light) ? 61 : 1;
+        for (uint64_t b = lo + (step > 1 ? idx % step : 0); b < hi; b += step) {
             vh_cur[0] = b;
             run_value(c, b, &rot);
         }
@@ -313,7 +322,7 @@ u_swap(uint64_t idx, void *arg)
             swap_one(w, v);
         }
     } else if (w == 32) {
-        uint64_t lo = (1ull << 28) * chunk, step = vh_tier ? 1 : 257;
+        uint64_t lo = (1ull << 28) * chunk, step = vh_tier ? (vh_light ? 31 : 1) : 257;
         for (uint64_t v = lo; v < lo + (1ull << 28); v += step, n++) {
             VH_SUB(0, v);
             swap_one(w, v);
